@@ -646,7 +646,7 @@ pub fn c17(tier: Tier) -> PropSpec {
                Interleaving is at request granularity, plus long-running solve tasks left in flight while other persons act (no response to a person without a task in flight may list a running task). Non-trivial: two persons own problems with the same name, or a rename / \
                account deletion is followed by another person's request.",
         assumptions: vec![
-            "each person uses passwords no other person uses, so a session identity always denotes an account the person owns (shared accounts / stale cookies are outside this check)",
+            "each person uses passwords no other person uses, so a session identity always denotes an account the person owns (shared accounts are outside this check; sessions that outlive their account are generated by the model-free part second-session)",
             "request-granularity interleavings only; races inside one request are not explored in this tier",
             "'salted hash' is checked by format, non-containment and salt freshness",
         ],
@@ -681,6 +681,7 @@ pub fn c17(tier: Tier) -> PropSpec {
             },
             c17_check,
         ),
-        crate::props::races::paused_part(tier)],
+        crate::props::races::paused_part(tier),
+        crate::props::races::two_session_part(tier)],
     }
 }
